@@ -108,6 +108,7 @@ type HistCase struct {
 	Keys     []Key     `json:"keys"`
 	Ops      []Op      `json:"ops"`
 	Observed []int     `json:"observed"` // per non-Counters op: 0 Block 1 Proceed 2 error 3 panic
+	ColFail  int       `json:"counters_calls_that_panicked,omitempty"`
 }
 
 type Alloc struct {
@@ -189,10 +190,18 @@ func execHist(k *HistCase) {
 	clk := &fakeClock{}
 	st := newState(clk)
 	k.Observed = nil
+	k.ColFail = 0
 	for _, op := range k.Ops {
 		clk.set(op.Now)
 		if op.Peek {
-			st.Counters()
+			func() {
+				defer func() {
+					if r := recover(); r != nil {
+						k.ColFail++
+					}
+				}()
+				st.Counters()
+			}()
 			continue
 		}
 		k.Observed = append(k.Observed, tryInc(st, k.Keys[op.Key], k.Profiles[op.Prof]))
@@ -518,7 +527,10 @@ func genLimit(o *c.Out) {
 	}
 	for i := 0; i < o.Scale(1500, 30000, 20000); i++ {
 		var total, e4 int64
-		switch r.Intn(4) {
+		switch r.Intn(5) {
+		case 4: // three decimals; product a whole number when total is a multiple of 1000
+			total = int64(r.Range(1, 30)) * c.Pick(r, []int64{1, 10, 1000})
+			e4 = int64(r.Range(0, 100000)) * 10
 		case 0: // product is a whole number: pct with two decimals, total a multiple of 100
 			total = int64(r.Range(1, 30)) * 100
 			e4 = int64(r.Range(0, 10000)) * 100
@@ -664,24 +676,32 @@ func genHistCase(r *c.Rng) HistCase {
 		}
 		k.Ops = append(k.Ops, Op{Now: t, Key: r.Intn(nk), Prof: cur})
 	}
-	// Counters() walks a Go map: with a zero window stored for some key it panics
-	// part-way through in an unspecified order, so such histories carry no Counters()
-	zero := false
-	for _, p := range k.Profiles {
-		if p.W == 0 {
-			zero = true
-		}
-	}
-	if zero {
-		ops := k.Ops[:0]
-		for _, op := range k.Ops {
-			if !op.Peek {
-				ops = append(ops, op)
-			}
-		}
-		k.Ops = ops
-	}
+	// (Counters() with a zero window size stored for some key: Counter() returns that
+	// state's counter as it is -- patches/C09/fix-F-C09b.patch; before it, it panicked
+	// part-way through the map in an unspecified order)
 	return k
+}
+
+// the committed witnesses of known finding F-C09c (spill-over amount stays in force after
+// spill-over is disabled), both directions
+func genHistWitnesses(o *c.Out) {
+	one := math.Float64bits(1)
+	// allowed 5 with spill-over: one request in (0,10], one in (20,30] (4 unused carried
+	// over); then allowed 0 without spill-over: requests still proceed
+	runHist(o, HistCase{
+		Profiles: []Profile{{W: 10, Allowed: 5, PctE4: 1000000, RatioBits: one, Spill: true},
+			{W: 10, Allowed: 0, PctE4: 1000000, RatioBits: one}},
+		Keys: []Key{{Limiter: "A"}},
+		Ops:  []Op{{Now: 1}, {Now: 25}, {Now: 35, Prof: 1}, {Now: 35, Prof: 1}},
+	})
+	// allowed 2 at 150 % with spill-over: three proceed, the roll-over makes the amount -1;
+	// then allowed 2 at 100 % without spill-over: the second request is rejected
+	runHist(o, HistCase{
+		Profiles: []Profile{{W: 10, Allowed: 2, PctE4: 1500000, RatioBits: ratioBitsOfPct(1500000), Spill: true},
+			{W: 10, Allowed: 2, PctE4: 1000000, RatioBits: one}},
+		Keys: []Key{{Limiter: "A"}},
+		Ops:  []Op{{Now: 1}, {Now: 1}, {Now: 1}, {Now: 15}, {Now: 25, Prof: 1}, {Now: 25, Prof: 1}},
+	})
 }
 
 // every multiset of at most 4 requests over the instants of three windows of size 3
@@ -952,6 +972,14 @@ func main() {
 			var k StressCase
 			must(json.Unmarshal(raw, &k))
 			runStress(o, k, 0)
+		case "freshrace":
+			var k RaceCase
+			must(json.Unmarshal(raw, &k))
+			if k.BudgetMs < 5000 {
+				k.BudgetMs = 5000 // a race: the replay gets more time than the run that found it
+			}
+			k.NewGroups, k.Collections, k.Panic = 0, 0, ""
+			runFreshRace(o, k, 0)
 		default:
 			fmt.Fprintln(os.Stderr, "unknown suite in replay file:", suite)
 			os.Exit(2)
@@ -961,6 +989,7 @@ func main() {
 	}
 
 	genLimit(o)
+	genHistWitnesses(o)
 	genHistExhaustive(o)
 	rh := o.Rng.Fork(2)
 	for i := 0; i < o.Scale(700, 12000, 12000); i++ {
@@ -972,6 +1001,7 @@ func main() {
 	}
 	genOverlap(o)
 	stress(o)
+	freshRace(o)
 	o.Finish()
 }
 
